@@ -5,10 +5,10 @@ import ExoVerif.Model.Auth
 
 `ExoVerif.Gen.*` is rewritten by tools/exofacts (facts_atomic.go: genAuthFacts) on every run. The
 decision functions of `Model/Auth.lean` assume exactly these reads; a changed comparison, a gateway
-check that is no longer the first statement, an AVS method that starts to read `origin`, or an oracle
-branch that starts to use the result of `VerifySignature` changes a generated literal and breaks a
-`decide` below (for the last two: in the direction of a *fix* — the recorded findings F-10a / F-10b
-would then have to be retired and `admitOraclePrice` / `admitAvsOpt` re-transcribed).
+check that is no longer the first statement, an AVS method that starts to read `origin` (that would be
+the fix of F-10b: `admitAvsOpt` would have to be re-transcribed), or an oracle branch that stops checking
+the result of `VerifySignature` (F-10a, fixed by 8ec350f) changes a generated literal and breaks a
+`decide` below.
 -/
 namespace ExoVerif.Auth
 open ExoVerif.Gen
@@ -41,9 +41,10 @@ theorem C10_tie_avs_reads :
        ("GetAVSParamsFromUpdateInputs.CallerAddress", "args[0]"), ("GetTaskParamsFromInputs.CallerAddress", "args[0]")] ∧
     avsOriginIgnored = true := by decide
 
-/-- oracle branch of SigVerificationDecorator: the boolean of `VerifySignature` is dropped
-(`admitOraclePrice` does not depend on `sig` being valid) -/
-theorem C10_tie_oracle_sig_discarded : oracleSigResultDiscarded = true := by decide
+/-- oracle branch of SigVerificationDecorator: `VerifySignature` is no longer a statement of its own; it
+stands in the condition of an `if` whose body returns an error (`admitOraclePrice` requires `sig = valid`).
+Re-introducing F-10a (dropping the result, or dropping the call) flips one of the two literals. -/
+theorem C10_tie_oracle_sig_checked : oracleSigResultDiscarded = false ∧ oracleSigResultChecked = true := by decide
 
 /-- all five UpdateParams handlers use the same condition (`admitUpdateParams`) -/
 theorem C10_tie_update_params :
